@@ -171,3 +171,77 @@ Proof.
 Qed.
 
 End Hashed.
+
+(* ====================================================================================================
+   Appended for the C09 extension (number-like parameter values: h.Scalar / Prefixed / Decimal fields).
+   ==================================================================================================== *)
+
+(* ---------- the cache key of a call is the implementation's dict key ---------- *)
+Lemma canon_all_total : forall ds vs, valid_all ds vs = true -> exists r, canon_all vs = Ok r.
+Proof.
+  induction ds as [|d ds IH]; intros [|v vs] H; simpl in H; try discriminate.
+  - exists []. reflexivity.
+  - apply andb_true_iff in H. destruct H as [Hv Hvs]. destruct (canon_total _ _ Hv) as [y Y]. destruct (IH _ Hvs) as [r R].
+    exists (y :: r). simpl. rewrite Y. simpl. rewrite R. reflexivity.
+Qed.
+
+(* two calls whose validated parameter instances are found equal by the dict lookup (hash equal and ==) have the
+   same key, and conversely - for ALL values *)
+Lemma key_is_lookup fs a1 a2 v1 v2 : validate_args fs a1 = Ok v1 -> validate_args fs a2 = Ok v2 ->
+  (lookup_hit v1 v2 = true <-> norm_args fs a1 = norm_args fs a2).
+Proof.
+  intros V1 V2.
+  destruct (canon_all_total _ _ (validate_args_valid _ _ _ V1)) as [r R].
+  destruct (canon_all_total _ _ (validate_args_valid _ _ _ V2)) as [s S].
+  assert (norm_args fs a1 = Ok r) as N1 by (apply norm_args_split; exists v1; auto).
+  assert (norm_args fs a2 = Ok s) as N2 by (apply norm_args_split; exists v2; auto).
+  rewrite N1, N2, (lookup_hit_key v1 v2 r s R S). split; [intros ->; reflexivity|intros H; inversion H; reflexivity].
+Qed.
+
+(* ... and whenever no Prefixed number has more than EPSILON decimal places, == alone decides *)
+Lemma key_is_eq fs a1 a2 v1 v2 : validate_args fs a1 = Ok v1 -> validate_args fs a2 = Ok v2 ->
+  fine_all v1 = true -> fine_all v2 = true ->
+  (insts_eqb v1 v2 = true <-> norm_args fs a1 = norm_args fs a2).
+Proof.
+  intros V1 V2 F1 F2.
+  destruct (canon_all_total _ _ (validate_args_valid _ _ _ V1)) as [r R].
+  destruct (canon_all_total _ _ (validate_args_valid _ _ _ V2)) as [s S].
+  assert (norm_args fs a1 = Ok r) as N1 by (apply norm_args_split; exists v1; auto).
+  assert (norm_args fs a2 = Ok s) as N2 by (apply norm_args_split; exists v2; auto).
+  rewrite N1, N2. split.
+  - intros E. f_equal. eapply insts_eqb_key; eassumption.
+  - intros H. inversion H. subst s. eapply insts_eqb_of_key; eassumption.
+Qed.
+
+Lemma mk_key_of_args U g fs a1 a2 : nth_error U g = Some fs -> norm_args (g_fields fs) a1 = norm_args (g_fields fs) a2 ->
+  mk_key U (g, a1) = mk_key U (g, a2).
+Proof. intros N H. unfold mk_key. simpl. rewrite N, H. reflexivity. Qed.
+
+(* ---------- the hashed form through the encoded JSON value (Model/ParamName.v: json_tree) ----------
+   What stays a premise: md5 is collision-free on the texts met and a hex digest holds no '='; the TEXT serialisation
+   json.dumps(.., indent=4) of the encoded value of one parameter class loses nothing (string escaping, float repr,
+   and: the values of distinct enum members and the names written for distinct referenced objects are distinct). *)
+Section HashedTree.
+Variable md5hex : string -> string.
+Variable dumps : jv -> string.
+Hypothesis md5_collision_free : forall a b, md5hex a = md5hex b -> a = b.
+Hypothesis md5_hex : forall a, has_char "=" (md5hex a) = false.
+Hypothesis dumps_faithful : forall fs vs ws,
+  typed_all (map f_dtype fs) vs = true -> typed_all (map f_dtype fs) ws = true ->
+  dumps (json_tree fs vs) = dumps (json_tree fs ws) -> json_tree fs vs = json_tree fs ws.
+
+Definition json_text (fs : list field) (vs : list pval) : string := dumps (json_tree fs vs).
+
+Lemma json_text_injective fs vs ws :
+  typed_all (map f_dtype fs) vs = true -> typed_all (map f_dtype fs) ws = true -> json_text fs vs = json_text fs ws -> vs = ws.
+Proof. intros Tv Tw H. apply (json_tree_inj fs); try assumption. apply dumps_faithful; assumption. Qed.
+
+Lemma suffix_injective_tree fs vs ws s : fs <> [] ->
+  suffix_str md5hex json_text fs vs = Ok s -> suffix_str md5hex json_text fs ws = Ok s -> vs = ws.
+Proof. exact (suffix_injective md5hex json_text md5_collision_free md5_hex json_text_injective fs vs ws s). Qed.
+
+Lemma design_names_unique_tree U T fuel ks st ms m1 m2 g1 g2 : run_hist_h md5hex json_text U T fuel ks = Ok (st, ms) ->
+  creators_ok U T (map m_creator (heap st)) ->
+  nth_error (heap st) m1 = Some g1 -> nth_error (heap st) m2 = Some g2 -> m_name g1 = m_name g2 -> m1 = m2.
+Proof. exact (design_names_unique md5hex json_text md5_collision_free md5_hex json_text_injective U T fuel ks st ms m1 m2 g1 g2). Qed.
+End HashedTree.
